@@ -326,8 +326,8 @@ theorem crossC_spec (hq : ∀ c x y, OK c → (q c x y).1 = p x y ∧ OK (q c x 
 end folds
 
 /-- **the memo table is transparent**: conflict detection with it equals conflict detection without -/
-theorem hasConflictC_eq {ns : List Node} (hnd : NoDuplicate ns) (hdef : DepsDefined ns) (cfg : Cfg) :
-    hasConflictC cfg ns = hasConflict cfg ns := by
+theorem hasConflictC_eq {ns : List Node} (hnd : NoDuplicate ns) (hdef : DepsDefined ns) (cfg : Cfg) (ws : Bytes) :
+    hasConflictC cfg ws ns = hasConflict cfg ws ns := by
   have hsame : ∀ c (r s : Rec), CacheOK ns c →
       (sameKeyC cfg ns c r s).1 = (r.path == s.path && !ordered cfg ns r.owner s.owner) ∧
       CacheOK ns (sameKeyC cfg ns c r s).2 := by
@@ -340,13 +340,13 @@ theorem hasConflictC_eq {ns : List Node} (hnd : NoDuplicate ns) (hdef : DepsDefi
     · rename_i hp
       simp [hp, hc]
   have hdd : ∀ c (r s : Rec), CacheOK ns c →
-      (dirDirC cfg ns c r s).1 = (!ordered cfg ns r.owner s.owner && Paths.pathsOverlap cfg.dotRoot r.path s.path) ∧
+      (dirDirC cfg ns c r s).1 = (!ordered cfg ns r.owner s.owner && Paths.pathsOverlap cfg.dotRoot cfg.resolve r.path s.path) ∧
       CacheOK ns (dirDirC cfg ns c r s).2 := by
     intro c r s hc
     obtain ⟨h1, h2⟩ := orderedC_spec hnd hdef cfg hc r.owner s.owner
     simp [dirDirC, h1, h2]
   have hdf : ∀ c (d f : Rec), CacheOK ns c →
-      (dirFileC cfg ns c d f).1 = (!ordered cfg ns d.owner f.owner && Paths.pathWithin cfg.dotRoot f.path d.path) ∧
+      (dirFileC cfg ns c d f).1 = (!ordered cfg ns d.owner f.owner && Paths.pathWithin cfg.dotRoot cfg.resolve f.path d.path) ∧
       CacheOK ns (dirFileC cfg ns c d f).2 := by
     intro c d f hc
     obtain ⟨h1, h2⟩ := orderedC_spec hnd hdef cfg hc d.owner f.owner
@@ -354,9 +354,9 @@ theorem hasConflictC_eq {ns : List Node} (hnd : NoDuplicate ns) (hdef : DepsDefi
   unfold hasConflictC hasConflict
   simp only
   obtain ⟨a1, b1⟩ := pairsC_spec _ _ (CacheOK ns) hsame (dockerRecs (targetsOf ns)) (false, []) (cacheOK_nil ns)
-  obtain ⟨a2, b2⟩ := pairsC_spec _ _ (CacheOK ns) hsame (fileRecs (targetsOf ns)) _ b1
-  obtain ⟨a3, b3⟩ := pairsC_spec _ _ (CacheOK ns) hdd (dirRecs (targetsOf ns)) _ b2
-  obtain ⟨a4, _⟩ := crossC_spec _ _ (CacheOK ns) hdf (fileRecs (targetsOf ns)) (dirRecs (targetsOf ns)) _ b3
+  obtain ⟨a2, b2⟩ := pairsC_spec _ _ (CacheOK ns) hsame (fileRecs cfg ws (targetsOf ns)) _ b1
+  obtain ⟨a3, b3⟩ := pairsC_spec _ _ (CacheOK ns) hdd (dirRecs cfg ws (targetsOf ns)) _ b2
+  obtain ⟨a4, _⟩ := crossC_spec _ _ (CacheOK ns) hdf (fileRecs cfg ws (targetsOf ns)) (dirRecs cfg ws (targetsOf ns)) _ b3
   rw [a4, a3, a2, a1]
   simp
 
